@@ -33,6 +33,13 @@ def user_visible(out):
     return code + " " + json.dumps(keep, sort_keys=True)
 
 
+def sibling(src):
+    """the same program with the bodies of its macros (and a constant) changed: same names, other meaning"""
+    t = src.replace("(qq (+ ", "(qq (@@ ").replace("(qq (- ", "(qq (+ ").replace("(qq (* ", "(qq (- ").replace("(qq (@@ ", "(qq (* ")
+    t = re.sub(r"\(defconstant (K\d+) (-?\d+)\)", lambda m: "(defconstant %s %d)" % (m.group(1), int(m.group(2)) + 1), t)
+    return t
+
+
 def run_histories(hists):
     with ThreadPoolExecutor(max_workers=vlib.NPROC) as ex:
         return list(ex.map(lambda h: vlib.run_batch([vlib.HARNESS_BIN, "batch"], h, timeout_line=120, nproc=1), hists))
@@ -63,6 +70,11 @@ def run(ck):
             continue
         for body in ("(defun F (A) (c 0x00 A)) (F X)", "(defun-inline F (A) (c 0x0000 (c 0 A))) (F X)", "(defconstant K 0x00) (defun F (A) (list K A 0)) (F X)", "(c 0x00 (c (q . 0) X))"):
             jobs.append(({"fixed": True}, d, "(mod (X) %s %s)" % (sig, body)))
+    # user macros of the new kind (defmac, strict dialects): the same macro NAME with another body compiled earlier in the
+    # process must not leak into a later compilation
+    for d in ("strict21", "cl23", "cl23.1", "cl24"):
+        for op in ("+", "-", "*"):
+            jobs.append(({"fixed": True}, d, "(mod (X Y) %s (defmac MM (A B) (qq (%s (unquote A) (unquote B)))) (defun F (P) (MM P 5)) (c (MM X Y) (F Y)))" % (srcgen.SIGILS[d], op)))
     hists = []
     meta = []
     ctrs = [0, 8, 9, 98, 99, 998, 999, 99999, 10 ** 9 - 1]
@@ -81,6 +93,7 @@ def run(ck):
             ("mode-after-failure-0", ["intmode\t0"] + ["compile\t1\t\t" + f.encode().hex() for f in FAILINGS] + [line, "getintmode"]),
             ("mode-flipped-0", ["intmode\t0", line, "getintmode"]),
             ("mode-flipped-1", ["intmode\t1", line, "getintmode"]),
+            ("after-sibling-with-other-macro-bodies", ["compile\t1\t\t" + sibling(src).encode().hex(), line]),
             ("twice", [line, line]),
             ("threads", ["threads\t6\t1\t\t" + src.encode().hex()]),
         ]
